@@ -23,6 +23,8 @@ pub enum K {
     Exists,
     Delete,
     SyncDir,
+    /// one `read_bytes` on an opened file; never logged, and only failed by a rule that names this kind explicitly
+    Read,
 }
 pub const ALL_KINDS: [K; 10] = [K::Create, K::Append, K::Flush, K::Terminate, K::AtomicWrite, K::AtomicRead, K::OpenRead, K::Exists, K::Delete, K::SyncDir];
 
@@ -84,6 +86,8 @@ pub struct State {
     pub fired_by_kind_thread: BTreeMap<String, usize>,
     /// writers accept at most that many bytes per `write` call (0 = everything): short writes, as `Write` allows
     pub write_limit: usize,
+    /// some fault rule names K::Read: opened files consult the fault plan on every read
+    pub read_faults: bool,
 }
 
 #[derive(Clone)]
@@ -173,9 +177,11 @@ impl SimDir {
     }
     pub fn set_faults(&self, rules: Vec<FaultRule>) {
         let mut st = self.st.lock().unwrap();
+        st.read_faults = rules.iter().any(|r| r.kinds.contains(&K::Read));
         st.faults = rules.into_iter().map(|r| (r, 0)).collect();
     }
     pub fn clear_faults(&self) {
+        // (files opened while a read rule was armed keep consulting the - now empty - plan)
         self.st.lock().unwrap().faults.clear();
     }
     pub fn faults_fired(&self) -> usize {
@@ -275,7 +281,7 @@ impl SimDir {
                 if lock && !rule.locks {
                     continue;
                 }
-                let kind_ok = if rule.kinds.is_empty() { kind != K::Exists } else { rule.kinds.contains(&kind) };
+                let kind_ok = if rule.kinds.is_empty() { kind != K::Exists && kind != K::Read } else { rule.kinds.contains(&kind) };
                 if !kind_ok || !thread.starts_with(rule.thread.as_str()) || !path.to_str().unwrap_or("").ends_with(rule.path_suffix.as_str()) {
                     continue;
                 }
@@ -291,7 +297,7 @@ impl SimDir {
                 *st.fired_by_kind_thread.entry(format!("{kind:?}@{}", thread_class(&thread))).or_default() += 1;
             }
         }
-        if st.log_enabled {
+        if st.log_enabled && kind != K::Read {
             let payload = if st.log_payloads { data.map(|d| Arc::new(d.to_vec())) } else { None };
             st.log.push(Op { thread, kind, path: path.to_path_buf(), data: payload, failed: fail });
         }
@@ -340,11 +346,38 @@ impl TerminatingWrite for SimWriter {
     }
 }
 
+/// an opened file whose reads go through the fault plan (only handed out while a rule names K::Read)
+struct SimFile {
+    dir: SimDir,
+    path: PathBuf,
+    bytes: tantivy::directory::OwnedBytes,
+}
+impl std::fmt::Debug for SimFile {
+    fn fmt(&self, f: &mut std::fmt::Formatter<'_>) -> std::fmt::Result {
+        write!(f, "SimFile({})", self.path.display())
+    }
+}
+impl tantivy_common::HasLen for SimFile {
+    fn len(&self) -> usize {
+        self.bytes.len()
+    }
+}
+impl FileHandle for SimFile {
+    fn read_bytes(&self, range: std::ops::Range<usize>) -> io::Result<tantivy::directory::OwnedBytes> {
+        self.dir.op(K::Read, &self.path, None)?;
+        Ok(self.bytes.slice(range))
+    }
+}
+
 impl Directory for SimDir {
     fn get_file_handle(&self, path: &Path) -> Result<Arc<dyn FileHandle>, OpenReadError> {
         self.op(K::OpenRead, path, None).map_err(|e| OpenReadError::wrap_io_error(e, path.to_path_buf()))?;
         let st = self.st.lock().unwrap();
         let data = st.files.get(path).ok_or_else(|| OpenReadError::FileDoesNotExist(path.to_path_buf()))?;
+        if st.read_faults {
+            let bytes = tantivy::directory::OwnedBytes::new(data.to_vec());
+            return Ok(Arc::new(SimFile { dir: self.clone(), path: path.to_path_buf(), bytes }));
+        }
         Ok(Arc::new(FileSlice::from(data.to_vec())))
     }
     fn delete(&self, path: &Path) -> Result<(), DeleteError> {
